@@ -75,6 +75,11 @@ def castDims : List (Option Nat × Option Nat) → List Nat → Bool
     (match lo with | some l => decide (l ≤ s) | none => true) &&
     (match hi with | some h => decide (s ≤ h) | none => true) && castDims ds ss
 
+/-- `cast_value` on the final value: a node without declared dimensions takes scalar values only
+    ("Array value set to scalar node" / the scalar cast fails), otherwise the bounds test. -/
+def dimsOK (dims : List (Option Nat × Option Nat)) (shape : List Nat) : Bool :=
+  if dims.isEmpty then shape.isEmpty else castDims dims shape
+
 /-- One iteration of the validation loop; `false` = an exception leaves `parse`. -/
 def validateNode (P : Prim F) (n : Node F) : Bool :=
   -- options were registered while parsing: a failing conversion raised there
@@ -82,7 +87,7 @@ def validateNode (P : Prim F) (n : Node F) : Bool :=
   | none => false
   | some regs =>
     -- dimension bounds were tested by cast_value when the final value was set
-    if !castDims n.dims n.shape then false
+    if !dimsOK n.dims n.shape then false
     else
       match n.value with
       | none => !n.declared && regs.isEmpty && n.condition.isNone && n.format.isNone
@@ -107,18 +112,19 @@ def optHolds (P : Prim F) (n : Node F) (v : Val F) : Opt F → Prop
   | .str s => v = .str s
 
 /-- what is well-formed about a node record: options only on selectable nodes, format only on
-    strings (OptionNode.parse / FormatNode.parse refuse anything else), every option convertible,
-    a valueless node carries no constraint to evaluate. -/
+    strings (OptionNode.parse / FormatNode.parse refuse anything else), every option convertible. -/
 def Node.Sane (P : Prim F) (n : Node F) : Prop :=
   (n.selectable = false → n.options = []) ∧ (n.isStr = false → n.format = none) ∧
-  (∀ o ∈ n.options, (register P n o).isSome) ∧
-  (n.value = none → n.options = [] ∧ n.condition = none ∧ n.format = none)
+  (∀ o ∈ n.options, (register P n o).isSome)
 
-/-- The property's constraint set on one node. -/
+/-- The property's constraint set on one node: the value fits the declared dimensions; a node
+    without value is neither declared nor constrained (a missing value equals no option, fulfils no
+    condition and matches no format); otherwise options, condition and format hold for the value. -/
 def holds (P : Prim F) (n : Node F) : Prop :=
-  (n.declared = true → n.value ≠ none) ∧
-  castDims n.dims n.shape = true ∧
-  ∀ v, n.value = some v →
+  dimsOK n.dims n.shape = true ∧
+  match n.value with
+  | none => n.declared = false ∧ n.options = [] ∧ n.condition = none ∧ n.format = none
+  | some v =>
     (n.options = [] ∨ ∃ o ∈ n.options, optHolds P n v o) ∧
     (n.condition = none ∨ n.condition = some (some true)) ∧
     (n.format = none ∨ n.format = some true)
